@@ -622,9 +622,20 @@ Fixpoint recv_stream (clob : nat -> list Z -> list Z) (fuel : nat) (self : list 
     al st' <- recv_b clob (recv_fuel p) self st p;
     recv_stream clob f self st' r
   end.
+(* The server-side Session value is built in two places: Listener.talk (a hello that arrives on
+   its own connection) and Listener.talkSub (a hello forwarded inside a Multi container of a
+   registered peer).  Of its fields, receive() and the fragment dispatch touch only Session.frags:
+   both literals must start it as an EMPTY, non-nil map. *)
+Definition session_of_talk : fstate := [].
+Definition session_of_talkSub : fstate := [].
+
 Definition receive_seq_c (clob : nat -> list Z -> list Z) (self : list Z) (s : list Z) : A (list Z) :=
-  al st <- recv_stream clob (S (length s)) self [] s; ret [len st].
+  al st <- recv_stream clob (S (length s)) self session_of_talk s; ret [len st].
 Definition receive_seq := receive_seq_c no_clob.
+(* the same for a Session that was registered through the forwarded path *)
+Definition receive_seqf_c (clob : nat -> list Z -> list Z) (self : list Z) (s : list Z) : A (list Z) :=
+  al st <- recv_stream clob (S (length s)) self session_of_talkSub s; ret [len st].
+Definition receive_seqf := receive_seqf_c no_clob.
 
 (* the harness: the input is the stream form of the top packet; then receive(s, l, &p) on the
    Session of device `self` *)
@@ -838,6 +849,7 @@ Inductive case :=
 | CB64 (shift : Z) (input : list Z) (observed_decode : res (list Z)) (out : res (list Z)) (cls : Z)
 | CRecv (self : list Z) (input : list Z) (out : res (list Z)) (cls : Z)
 | CRecvSeq (self : list Z) (input : list Z) (out : res (list Z)) (cls : Z)
+| CRecvSeqF (self : list Z) (input : list Z) (out : res (list Z)) (cls : Z)   (* Session made by talkSub *)
 | CJson (f : sess) (text : list Z).           (* the leaves read from a Session, and what JSON() wrote *)
 
 (* errors: the two EOF flavours are compared exactly; EFuel never matches anything observed *)
@@ -857,6 +869,10 @@ Definition check (c : case) : bool :=
     ((cls =? 2) || res_eqb zlist_eqb (outcome r) out)
   | CRecvSeq self input out cls =>
     let r := receive_seq self input in
+    alloc_class_ok (alloc r) (len input) cls &&
+    ((cls =? 2) || res_eqb zlist_eqb (outcome r) out)
+  | CRecvSeqF self input out cls =>
+    let r := receive_seqf self input in
     alloc_class_ok (alloc r) (len input) cls &&
     ((cls =? 2) || res_eqb zlist_eqb (outcome r) out)
   | CJson f text => zlist_eqb (session_json f) text && sess_okb f
